@@ -129,3 +129,31 @@ Print Assumptions C09_replace_properties.
 Print Assumptions C09_replace_properties_square.
 Print Assumptions C09_props_of_count.
 Print Assumptions C09_sub_word_shrinks.
+
+(* ---- collapse-brace beyond line mode *)
+From Lithium Require Import CollapseCharProofs.
+
+(* minimize-collapse-brace in CHAR mode, end to end on a loaded file: the atoms stay single bytes and
+   collapsing `{\s+}` to `{ }` never lengthens the region, so the re-split never adds atoms *)
+Theorem C09_collapse_char :
+  forall cfg clk verdict d tc0 fuel,
+    load_char d = Ok tc0 -> valid_cfg cfg ->
+    (Z.to_nat (2 * c09_bound (tc_len tc0)) <= fuel)%nat ->
+    let r := Driver.run (collapse_brace cfg clk split_char) verdict fuel tc0 d in
+    (forall w, r <> NoFuel w) /\ (forall e w, r <> Aborted (Some e) w) /\
+    n_tests (chron (result_world r)) <= c09_bound (tc_len tc0).
+Proof. exact collapse_char_bounded. Qed.
+
+Theorem C09_collapse_never_longer : forall raw, zlen (collapse raw) <= zlen raw.
+Proof. exact collapse_le. Qed.
+
+(* the side condition is not automatic: with user-supplied symbol delimiters the re-split after a
+   collapse CAN produce more atoms than before (cut-after = {space}: the one atom `{\n}` becomes
+   `{ ` and `}`), so for the symbol splitter with arbitrary sets the bound is explored, not proved *)
+Theorem C09_collapse_symbol_custom_post_refuted :
+  exists bs afs, ~ post_ok (collapse_post (split_symbol bs afs)).
+Proof. exact collapse_symbol_custom_post_refuted. Qed.
+
+Print Assumptions C09_collapse_char.
+Print Assumptions C09_collapse_never_longer.
+Print Assumptions C09_collapse_symbol_custom_post_refuted.
